@@ -199,6 +199,7 @@ func (x *c09Ctx) nonNeg(v ssa.Value, in *ssa.Function) (bool, string) {
 }
 
 func c09(c *eng.Ctx) {
+	defer c09Extra(c)
 	c.Rule("R1", "fallback: upstreamLimiter.Load hands out the remote limiter only when the limiter type is remote, the schema's strategy is global, the client set exists and is ready, and the remote limiter is synced; pinning any one of these the other way forces the local limiter", 6)
 	c.Rule("R2", "sign-safe conversions: every signed/float→unsigned conversion in pkg/flowcontrols has an operand proven ≥ 0 (branch-refined bounds; validated configuration; the reserve invariant; unsigned sources; limits read from sanitized server items)", 15)
 	c.Rule("R2s", "server quotas are sanitized at entry: in remoteWrapper.Sync the answered item passes through a sanitizer whose result replaces it before any other use; the sanitizer clamps every numeric member into [0, the schema's configured global limit]; functions taking limit items are called only with sanitized items", 7)
